@@ -123,6 +123,18 @@ var props = map[string]propCfg{
 		},
 		MinNontriv: 1000,
 	},
+	"C11": {
+		Quick:    tierCfg{Shards: 8, Checks: 4000, Timeout: 3 * time.Minute},
+		Thorough: tierCfg{Shards: 16, Checks: 60000, Timeout: 30 * time.Minute},
+		Rule: "part (a): generated files with 0-8 bystander imports (unnamed, named, blank, dot; one group, single declarations, two blocks, with doc and trailing comments; paths that extend or are extended by the subject path) around a subject import, and patches that replace it, change its path keeping its name, delete it, add another import or merely match it, naming it literally, not at all or by an identifier metavariable, optionally with a second deleted or added import; the file still refers to the subject package not at all, plainly, or only through pkg.A.B / pkg.F().B / pkg.T[0].B / a nested func literal / type positions. Oracle on the (name, path) multiset: bystanders unchanged, nothing unmentioned added, '+' imports present once (under the captured name), '-' imports gone iff nothing refers to their package name any more (or a '+' import supplies the same name). " +
+			"part (b): mined patterns with '+import' lines on real hosts (host imports must survive as a multiset, the added import appears once). " +
+			"Non-trivial = (a) the change applies, >= 2 bystanders of >= 2 different forms, and the patch adds or deletes an import; (b) >= 1 site and a '+import' line.",
+		Assumptions: append([]string{
+			"the package name of an unnamed import is the last element of its path, and a metavariable import name is spelled like the package (the documented best practice); bystanders never share a package name with a subject import and no local identifier shadows a package name",
+			"an import matched on a context line that is no longer referred to is not judged (the property is silent)",
+		}, modelAssumptions...),
+		MinNontriv: 200,
+	},
 }
 
 var modelAssumptions = []string{
